@@ -43,6 +43,11 @@ const (
 )
 
 // Transport is a transport.Implementation whose reads follow a per-case segmentation.
+type delayedEmit struct {
+	atoms [][]byte
+	d     time.Duration
+}
+
 type Transport struct {
 	mu   sync.Mutex
 	cond *sync.Cond
@@ -77,7 +82,9 @@ type Transport struct {
 	EmitDelay time.Duration
 	// DeliveredAtWrite[i] = bytes delivered to the client when the i-th Write happened.
 	DeliveredAtWrite []int
-	delayQ           chan [][]byte
+	delayQ           chan delayedEmit
+	// EmitDelayFn, when set, replaces EmitDelay for an emission, as a function of the emitted bytes
+	EmitDelayFn func(emitted []byte) time.Duration
 	// MsgBoundaries: empty atoms in the device output mark message boundaries that reads do not cross.
 	MsgBoundaries bool
 	// ReadLog records the size of each successful read (for evidence / replay).
@@ -405,17 +412,21 @@ func (t *Transport) Write(b []byte) error {
 	t.Writes = append(t.Writes, cp)
 	em := t.Dev.Feed(cp)
 	t.DeliveredAtWrite = append(t.DeliveredAtWrite, t.Delivered)
-	if t.EmitDelay > 0 && len(em) > 0 {
+	delay := t.EmitDelay
+	if t.EmitDelayFn != nil && len(em) > 0 {
+		delay = t.EmitDelayFn(Flatten(em))
+	}
+	if (delay > 0 || t.delayQ != nil) && len(em) > 0 {
 		if t.delayQ == nil {
-			t.delayQ = make(chan [][]byte, 1024)
-			go func(q chan [][]byte, d time.Duration) {
-				for atoms := range q {
-					time.Sleep(d)
-					t.inject(atoms, false)
+			t.delayQ = make(chan delayedEmit, 1024)
+			go func(q chan delayedEmit) {
+				for e := range q {
+					time.Sleep(e.d)
+					t.inject(e.atoms, false)
 				}
-			}(t.delayQ, t.EmitDelay)
+			}(t.delayQ)
 		}
-		t.delayQ <- em
+		t.delayQ <- delayedEmit{em, delay}
 	} else {
 		t.pending = append(t.pending, em...)
 	}
